@@ -1,5 +1,1400 @@
+/-
+Helper lemmas for `Bolt.Props.C04BktOps`: the abstraction `absBk` of a bucket with nested
+buckets under the well-formedness `curOk`, a frame lemma for `modifyBk`, and the local effect
+of every API call on one bucket.
+-/
 import Bolt.Model.BktInv
+import Bolt.Lemmas.BTreeOps
+import Bolt.Lemmas.BTreeReb
+import Bolt.Lemmas.BTreeSpill
+import Bolt.Lemmas.BTreeBridge
+set_option linter.unusedSimpArgs false
 namespace Bolt.Bkt.BktOpsL
 open Bolt Bolt.BTree Bolt.Bkt
+
+/-! ### the copy of `tightN` in the model is the one of `Lemmas/BTreeReb` -/
+
+mutual
+theorem tightN_eq : ∀ (n : N) (lo : Option Bytes), tightN lo n = RebL.tightN lo n
+  | .leaf _ _, lo => by simp only [tightN, RebL.tightN]
+  | .branch _ kids, lo => by cases lo <;> simp only [tightN, RebL.tightN, tightKids_eq kids _]
+theorem tightKids_eq : ∀ (kids : List (Bytes × N)) (lo : Option Bytes),
+    tightKids lo kids = RebL.tightKids lo kids
+  | [], lo => by simp only [tightKids, RebL.tightKids]
+  | (_, c) :: r, lo => by simp only [tightKids, RebL.tightKids, tightN_eq c lo, tightKids_eq r _]
+end
+
+/-! ### unfolding the abstraction -/
+
+/-- content of the nested bucket named `n` of a bucket at `path` whose cache is `o` -/
+def subV (orig : Bk) (f : Nat) (path : List Bytes) (o : List (Bytes × Bk)) (n : Bytes) : SVal :=
+  match lookupBk n o with
+  | some c => absBk orig f (path ++ [n]) c
+  | none =>
+    match bkAt (path ++ [n]) orig with
+    | some c => absBk c f [] c
+    | none => .bkt 0 []
+
+def absIt (sub : Bytes → SVal) (i : Item) : Bytes × SVal :=
+  if i.flags % 2 = 1 then (i.key, sub i.key) else (i.key, .val i.val)
+
+/-- the entries of `absBk` -/
+def entsA (orig : Bk) : Nat → List Bytes → Bk → Ents
+  | 0, _, _ => []
+  | f+1, path, b => (flatten b.tree).map (absIt (subV orig f path b.opened))
+
+theorem absBk_eq (orig : Bk) (f : Nat) (path : List Bytes) (b : Bk) :
+    absBk orig f path b = .bkt b.seq (entsA orig f path b) := by
+  cases f with
+  | zero => rfl
+  | succ f => rfl
+
+theorem absIt_fst (sub : Bytes → SVal) (i : Item) : (absIt sub i).1 = i.key := by
+  unfold absIt; split <;> rfl
+
+
+theorem absIt_bucket (sub : Bytes → SVal) (i : Item) (h : i.flags % 2 = 1) :
+    absIt sub i = (i.key, sub i.key) := by
+  unfold absIt; rw [if_pos h]
+
+theorem absIt_plain (sub : Bytes → SVal) (i : Item) (h : ¬ i.flags % 2 = 1) :
+    absIt sub i = (i.key, .val i.val) := by
+  unfold absIt; rw [if_neg h]
+
+/-- `absIt` only looks at `sub` on the key of a bucket element -/
+theorem absIt_congr (sub sub' : Bytes → SVal) (i : Item) (h : i.flags % 2 = 1 → sub i.key = sub' i.key) :
+    absIt sub i = absIt sub' i := by
+  unfold absIt
+  by_cases hf : i.flags % 2 = 1
+  · rw [if_pos hf, if_pos hf, h hf]
+  · rw [if_neg hf, if_neg hf]
+
+theorem absBk_isBkt (orig : Bk) (f : Nat) (path : List Bytes) (b : Bk) :
+    (absBk orig f path b).isBucket = true := by rw [absBk_eq]; rfl
+
+theorem subV_isBkt (orig : Bk) (f : Nat) (path : List Bytes) (o : List (Bytes × Bk)) (n : Bytes) :
+    (subV orig f path o n).isBucket = true := by
+  unfold subV
+  split
+  · exact absBk_isBkt ..
+  · split
+    · exact absBk_isBkt ..
+    · rfl
+
+/-! ### the cache `opened` -/
+
+theorem lookupBk_nil (n : Bytes) : lookupBk n [] = none := rfl
+
+theorem lookupBk_cons (n : Bytes) (q : Bytes × Bk) (l : List (Bytes × Bk)) :
+    lookupBk n (q :: l) = if q.1 = n then some q.2 else lookupBk n l := by
+  unfold lookupBk
+  rw [List.find?_cons]
+  by_cases h : q.1 = n
+  · have : (q.1 == n) = true := by simpa using h
+    rw [this, if_pos h]; rfl
+  · have : (q.1 == n) = false := by simpa using h
+    rw [this, if_neg h]
+
+theorem lookupBk_replace (n : Bytes) (c' : Bk) (k : Bytes) : ∀ l : List (Bytes × Bk),
+    lookupBk k (l.map (fun p => if p.1 == n then (p.1, c') else p)) =
+      if k = n then (lookupBk n l).map (fun _ => c') else lookupBk k l
+  | [] => by simp [lookupBk_nil]
+  | q :: l => by
+    have ih := lookupBk_replace n c' k l
+    rw [List.map_cons, lookupBk_cons, ih]
+    by_cases hq : q.1 = n
+    · by_cases hk : k = n
+      · subst hk; simp [hq, lookupBk_cons]
+      · have : ¬ q.1 = k := fun e => hk (e ▸ hq)
+        have hnk : ¬ n = k := fun e => hk e.symm
+        simp [hq, hk, hnk, lookupBk_cons]
+    · by_cases hk : k = n
+      · subst hk; simp [hq, lookupBk_cons]
+      · simp [hq, hk, lookupBk_cons]
+
+theorem lookupBk_filter (n k : Bytes) : ∀ l : List (Bytes × Bk),
+    lookupBk k (l.filter (fun p => !(p.1 == n))) = if k = n then none else lookupBk k l
+  | [] => by simp [lookupBk_nil]
+  | q :: l => by
+    have ih := lookupBk_filter n k l
+    rw [List.filter_cons]
+    by_cases hq : q.1 = n
+    · simp only [hq, beq_self_eq_true, Bool.not_true, Bool.false_eq_true, if_false]
+      rw [ih, lookupBk_cons]
+      by_cases hk : k = n
+      · simp [hk]
+      · have : ¬ q.1 = k := fun e => hk (e ▸ hq)
+        simp [hk, this]
+    · have hq' : (q.1 == n) = false := by simpa using hq
+      simp only [hq', Bool.not_false, if_true]
+      rw [lookupBk_cons, lookupBk_cons, ih]
+      by_cases hk : k = n
+      · subst hk; simp [hq]
+      · simp [hk]
+
+theorem lookupBk_snoc (n k : Bytes) (c : Bk) : ∀ l : List (Bytes × Bk),
+    lookupBk k (l ++ [(n, c)]) = (lookupBk k l).or (if n = k then some c else none)
+  | [] => by simp [lookupBk_nil, lookupBk_cons]
+  | q :: l => by
+    rw [List.cons_append, lookupBk_cons, lookupBk_cons, lookupBk_snoc n k c l]
+    by_cases hq : q.1 = k <;> simp [hq]
+
+theorem lookupBk_mem {n : Bytes} {c : Bk} : ∀ {l : List (Bytes × Bk)}, lookupBk n l = some c → (n, c) ∈ l
+  | [], h => by simp [lookupBk_nil] at h
+  | q :: l, h => by
+    rw [lookupBk_cons] at h
+    by_cases hq : q.1 = n
+    · rw [if_pos hq] at h; cases h; subst hq; exact List.mem_cons_self ..
+    · rw [if_neg hq] at h; exact List.mem_cons_of_mem _ (lookupBk_mem h)
+
+theorem lookupBk_isSome (n : Bytes) : ∀ l : List (Bytes × Bk),
+    (lookupBk n l).isSome = true ↔ n ∈ l.map (·.1)
+  | [] => by simp [lookupBk_nil]
+  | q :: l => by
+    rw [lookupBk_cons, List.map_cons, List.mem_cons]
+    by_cases hq : q.1 = n
+    · simp [hq]
+    · rw [if_neg hq, lookupBk_isSome n l]
+      constructor
+      · exact Or.inr
+      · rintro (h | h)
+        · exact absurd h.symm hq
+        · exact h
+
+theorem lookupBk_none (n : Bytes) (l : List (Bytes × Bk)) :
+    lookupBk n l = none ↔ n ∉ l.map (·.1) := by
+  rw [← lookupBk_isSome]
+  cases lookupBk n l <;> simp
+
+theorem nodupB_iff : ∀ l : List Bytes, nodupB l = true ↔ l.Nodup
+  | [] => by simp [nodupB]
+  | a :: r => by
+    rw [nodupB, List.nodup_cons, Bool.and_eq_true, nodupB_iff r]
+    simp
+
+/-- with distinct names the cache holds one entry per name -/
+theorem lookupBk_unique {n : Bytes} {c : Bk} : ∀ {l : List (Bytes × Bk)}, (l.map (·.1)).Nodup →
+    lookupBk n l = some c → ∀ q ∈ l, q.1 = n → q = (n, c)
+  | [], _, h, _, _, _ => by simp [lookupBk_nil] at h
+  | x :: l, hn, h, q, hq, hqn => by
+    rw [List.map_cons, List.nodup_cons] at hn
+    rw [lookupBk_cons] at h
+    by_cases hx : x.1 = n
+    · rw [if_pos hx] at h
+      cases h
+      rcases List.mem_cons.mp hq with rfl | hq
+      · rw [← hx]
+      · exfalso; apply hn.1
+        rw [hx, ← hqn]; exact List.mem_map_of_mem hq
+    · rw [if_neg hx] at h
+      rcases List.mem_cons.mp hq with rfl | hq
+      · exact absurd hqn hx
+      · exact lookupBk_unique hn.2 h q hq hqn
+
+theorem replace_id {n : Bytes} {c : Bk} {l : List (Bytes × Bk)} (hn : (l.map (·.1)).Nodup)
+    (h : lookupBk n l = some c) : l.map (fun p => if p.1 == n then (p.1, c) else p) = l := by
+  conv => rhs; rw [← List.map_id l]
+  apply List.map_congr_left
+  intro q hq
+  by_cases hqn : q.1 = n
+  · have := lookupBk_unique hn h q hq hqn
+    simp [hqn, this]
+  · simp [hqn]
+
+theorem replace_names (n : Bytes) (c : Bk) (l : List (Bytes × Bk)) :
+    (l.map (fun p => if p.1 == n then (p.1, c) else p)).map (·.1) = l.map (·.1) := by
+  rw [List.map_map]
+  apply List.map_congr_left
+  intro q _
+  by_cases hqn : q.1 = n <;> simp [hqn]
+
+
+/-! ### item lists -/
+
+/-- in a list with ascending keys an item is the one `find?` returns for its key -/
+theorem find_of_mem : ∀ {l : List Item}, OpsL.SortedI l → ∀ x ∈ l, l.find? (fun i => i.key == x.key) = some x
+  | [], _, x, hx => by cases hx
+  | a :: r, hs, x, hx => by
+    have hs' := List.pairwise_cons.mp hs
+    by_cases ha : a.key = x.key
+    · rcases List.mem_cons.mp hx with rfl | hx
+      · exact OpsL.find_cons_eq _ rfl
+      · exact absurd ha (Bytes.lt_ne (hs'.1 x hx))
+    · rw [OpsL.find_cons_ne _ ha]
+      rcases List.mem_cons.mp hx with rfl | hx
+      · exact absurd rfl ha
+      · exact find_of_mem hs'.2 x hx
+
+theorem find_mem {l : List Item} {k : Bytes} {x : Item} (h : l.find? (fun i => i.key == k) = some x) :
+    x ∈ l ∧ x.key = k := by
+  refine ⟨List.mem_of_find?_eq_some h, ?_⟩
+  have := List.find?_some h
+  simpa using this
+
+def bktName (i : Item) : Option Bytes := if i.flags % 2 = 1 then some i.key else none
+
+theorem bucketNames_eq (t : N) : bucketNames t = (flatten t).filterMap bktName := rfl
+
+theorem mem_names {l : List Item} {n : Bytes} :
+    n ∈ l.filterMap bktName ↔ ∃ i ∈ l, i.flags % 2 = 1 ∧ i.key = n := by
+  rw [List.mem_filterMap]
+  constructor
+  · rintro ⟨i, hi, h⟩
+    unfold bktName at h
+    by_cases hf : i.flags % 2 = 1
+    · rw [if_pos hf] at h; cases h; exact ⟨i, hi, hf, rfl⟩
+    · rw [if_neg hf] at h; cases h
+  · rintro ⟨i, hi, hf, rfl⟩
+    exact ⟨i, hi, by unfold bktName; rw [if_pos hf]⟩
+
+/-- a bucket name of a sorted item list is found by `find?`, as a bucket element -/
+theorem names_find {l : List Item} (hs : OpsL.SortedI l) {n : Bytes} :
+    n ∈ l.filterMap bktName ↔ ∃ i, l.find? (fun i => i.key == n) = some i ∧ i.flags % 2 = 1 := by
+  rw [mem_names]
+  constructor
+  · rintro ⟨i, hi, hf, rfl⟩
+    exact ⟨i, find_of_mem hs i hi, hf⟩
+  · rintro ⟨i, hi, hf⟩
+    exact ⟨i, (find_mem hi).1, hf, (find_mem hi).2⟩
+
+theorem lookup_abs (sub : Bytes → SVal) (l : List Item) (k : Bytes) :
+    entsLookup (l.map (absIt sub)) k = (l.find? (fun i => i.key == k)).map (fun i => (absIt sub i).2) :=
+  BridgeL.lookup_map (absIt sub) (absIt_fst sub) k l
+
+/-- the entry of a nested bucket -/
+theorem lookup_abs_bucket (sub : Bytes → SVal) {l : List Item} (hs : OpsL.SortedI l) {n : Bytes}
+    (hn : n ∈ l.filterMap bktName) : entsLookup (l.map (absIt sub)) n = some (sub n) := by
+  obtain ⟨i, hi, hf⟩ := (names_find hs).mp hn
+  rw [lookup_abs, hi, Option.map_some, absIt_bucket sub i hf, (find_mem hi).2]
+
+theorem inTx_sorted {t : N} (h : InTx t) : OpsL.SortedI (flatten t) := by
+  have := (SpillL.inTx_flatten_sorted t _ _ _ _ h).1
+  rw [List.pairwise_map] at this
+  exact this
+
+/-! ### the invariants, clause by clause -/
+
+theorem curOk_zero (orig : Bk) (path : List Bytes) (b : Bk) : curOk orig 0 path b = false := by
+  rw [curOk]
+
+theorem curOk_succ (orig : Bk) (f : Nat) (path : List Bytes) (b : Bk) :
+    curOk orig (f+1) path b = true ↔
+      InTx b.tree ∧ tightN none b.tree = true ∧ (pgids b.tree).Nodup ∧ depth b.tree ≤ f ∧
+      (b.opened.map (·.1)).Nodup ∧
+      (∀ q ∈ b.opened, q.1 ∈ bucketNames b.tree ∧ curOk orig f (path ++ [q.1]) q.2 = true) ∧
+      (∀ n ∈ bucketNames b.tree,
+        (lookupBk n b.opened).isSome = true ∨ (bkAt (path ++ [n]) orig).isSome = true) := by
+  cases b with
+  | mk r s t o =>
+    rw [curOk]
+    simp only [Bk.tree, Bk.opened, Bool.and_eq_true, decide_eq_true_eq, nodupB_iff, List.all_eq_true,
+      List.contains_iff_mem, Bool.or_eq_true, and_assoc]
+
+theorem curOk_pos {orig : Bk} {f : Nat} {path : List Bytes} {b : Bk} (h : curOk orig f path b = true) :
+    ∃ f', f = f' + 1 := by
+  cases f with
+  | zero => rw [curOk_zero] at h; cases h
+  | succ f' => exact ⟨f', rfl⟩
+
+theorem origOkG_zero (ids : Bool) (b : Bk) : origOkG ids 0 b = false := by rw [origOkG]
+
+theorem origOkG_succ (ids : Bool) (f : Nat) (b : Bk) :
+    origOkG ids (f+1) b = true ↔
+      Committed b.tree ∧ (ids = true → (pgids b.tree).Nodup) ∧ depth b.tree ≤ f ∧
+      b.opened.map (·.1) = bucketNames b.tree ∧ ∀ q ∈ b.opened, origOkG ids f q.2 = true := by
+  cases b with
+  | mk r s t o =>
+    rw [origOkG]
+    cases ids <;>
+    simp only [Bk.tree, Bk.opened, Bool.and_eq_true, decide_eq_true_eq, List.all_eq_true, beq_iff_eq,
+      Bool.or_eq_true, Bool.not_eq_true', and_assoc, Bool.not_true, Bool.not_false, Bool.false_or,
+      Bool.true_or, true_and, Bool.false_eq_true, false_imp_iff, true_imp_iff, forall_const]
+
+
+/-! ### navigation: `bkAt` in the model is `bucketAt` on the abstraction -/
+
+theorem bkAt_nil (b : Bk) : bkAt [] b = some b := rfl
+
+theorem bkAt_cons (n : Bytes) (rest : List Bytes) (b : Bk) :
+    bkAt (n :: rest) b = (lookupBk n b.opened).bind (bkAt rest) := rfl
+
+theorem bkAt_cons_some {n : Bytes} {rest : List Bytes} {c b : Bk} (h : bkAt (n :: rest) c = some b) :
+    ∃ ch, lookupBk n c.opened = some ch ∧ bkAt rest ch = some b := by
+  rw [bkAt_cons] at h
+  exact Option.bind_eq_some_iff.mp h
+
+theorem bkAt_append (q : List Bytes) : ∀ (p : List Bytes) (c : Bk),
+    bkAt (p ++ q) c = (bkAt p c).bind (bkAt q)
+  | [], c => by simp [bkAt_nil]
+  | n :: p, c => by
+    rw [List.cons_append, bkAt_cons, bkAt_cons]
+    cases lookupBk n c.opened with
+    | none => rfl
+    | some ch => simp only [Option.bind_some]; exact bkAt_append q p ch
+
+theorem bkAt_snoc {p : List Bytes} {c b : Bk} (n : Bytes) (h : bkAt p c = some b) :
+    bkAt (p ++ [n]) c = lookupBk n b.opened := by
+  rw [bkAt_append, h, Option.bind_some, bkAt_cons]
+  cases lookupBk n b.opened <;> rfl
+
+theorem modifyBk_nil (g : Bk → Option Bk) (b : Bk) : modifyBk g [] b = g b := rfl
+
+theorem modifyBk_cons (g : Bk → Option Bk) (n : Bytes) (rest : List Bytes) (b ch : Bk)
+    (h : lookupBk n b.opened = some ch) :
+    modifyBk g (n :: rest) b = (modifyBk g rest ch).map
+      (fun c' => b.setOpened (b.opened.map (fun p => if p.1 == n then (p.1, c') else p))) := by
+  rw [modifyBk]; simp only [h]
+
+theorem setOpened_seq (o : List (Bytes × Bk)) (b : Bk) : (b.setOpened o).seq = b.seq := by cases b; rfl
+theorem setOpened_tree (o : List (Bytes × Bk)) (b : Bk) : (b.setOpened o).tree = b.tree := by cases b; rfl
+theorem setOpened_opened (o : List (Bytes × Bk)) (b : Bk) : (b.setOpened o).opened = o := by cases b; rfl
+theorem setTree_seq (t : N) (b : Bk) : (b.setTree t).seq = b.seq := by cases b; rfl
+theorem setTree_tree (t : N) (b : Bk) : (b.setTree t).tree = t := by cases b; rfl
+theorem setTree_opened (t : N) (b : Bk) : (b.setTree t).opened = b.opened := by cases b; rfl
+theorem setSeq_seq (s : Nat) (b : Bk) : (b.setSeq s).seq = s := by cases b; rfl
+theorem setSeq_tree (s : Nat) (b : Bk) : (b.setSeq s).tree = b.tree := by cases b; rfl
+theorem setSeq_opened (s : Nat) (b : Bk) : (b.setSeq s).opened = b.opened := by cases b; rfl
+theorem setTree_self (b : Bk) : b.setTree b.tree = b := by cases b; rfl
+theorem setOpened_self (b : Bk) : b.setOpened b.opened = b := by cases b; rfl
+
+theorem modifyBk_none (g : Bk → Option Bk) : ∀ (p : List Bytes) (c b : Bk),
+    bkAt p c = some b → g b = none → modifyBk g p c = none
+  | [], c, b, h, hg => by rw [bkAt_nil] at h; cases h; exact hg
+  | n :: rest, c, b, h, hg => by
+    obtain ⟨ch, h1, h2⟩ := bkAt_cons_some h
+    rw [modifyBk_cons g n rest c ch h1, modifyBk_none g rest ch b h2 hg]; rfl
+
+theorem modifyBk_some (g : Bk → Option Bk) : ∀ (p : List Bytes) (c b b' : Bk),
+    bkAt p c = some b → g b = some b' → ∃ c', modifyBk g p c = some c' ∧ bkAt p c' = some b'
+  | [], c, b, b', h, hg => by rw [bkAt_nil] at h; cases h; exact ⟨b', hg, rfl⟩
+  | n :: rest, c, b, b', h, hg => by
+    obtain ⟨ch, h1, h2⟩ := bkAt_cons_some h
+    obtain ⟨ch', e, hb⟩ := modifyBk_some g rest ch b b' h2 hg
+    refine ⟨_, by rw [modifyBk_cons g n rest c ch h1, e]; rfl, ?_⟩
+    rw [bkAt_cons, setOpened_opened, lookupBk_replace, if_pos rfl, h1]
+    exact hb
+
+/-- (A) the bucket the model reaches through its cache is the bucket the reference model finds
+    at the same path -/
+theorem bucketAt_abs (orig : Bk) : ∀ (p : List Bytes) (fu : Nat) (pre : List Bytes) (c b : Bk),
+    curOk orig fu pre c = true → bkAt p c = some b →
+    ∃ f, fu = f + p.length ∧ curOk orig f (pre ++ p) b = true ∧
+      bucketAt p (absBk orig fu pre c) = some (b.seq, entsA orig f (pre ++ p) b)
+  | [], fu, pre, c, b, hc, h => by
+    rw [bkAt_nil] at h; cases h
+    refine ⟨fu, rfl, by rw [List.append_nil]; exact hc, ?_⟩
+    rw [absBk_eq, List.append_nil]; simp
+  | n :: rest, fu, pre, c, b, hc, h => by
+    obtain ⟨ch, h1, h2⟩ := bkAt_cons_some h
+    obtain ⟨fu', rfl⟩ := curOk_pos hc
+    have hc' := (curOk_succ ..).mp hc
+    obtain ⟨hin, _, _, _, _, ho, _⟩ := hc'
+    have hq := ho _ (lookupBk_mem h1)
+    obtain ⟨f, hf, hcb, hba⟩ := bucketAt_abs orig rest fu' (pre ++ [n]) ch b hq.2 h2
+    have e : pre ++ [n] ++ rest = pre ++ n :: rest := by simp
+    rw [e] at hcb hba
+    refine ⟨f, by rw [hf]; rfl, hcb, ?_⟩
+    rw [absBk_eq, bucketAt_cons]
+    show (entsLookup ((flatten c.tree).map (absIt (subV orig fu' pre c.opened))) n).bind (bucketAt rest) = _
+    rw [lookup_abs_bucket _ (inTx_sorted hin) hq.1, Option.bind_some]
+    unfold subV
+    simp only [h1]
+    exact hba
+
+/-- (B) replacing the bucket at `p` replaces the bucket at `p` of the abstraction -/
+theorem abs_modify (orig : Bk) (g : Bk → Option Bk) : ∀ (p : List Bytes) (f : Nat) (pre : List Bytes)
+    (c c' b b' : Bk), bkAt p c = some b → modifyBk g p c = some c' → g b = some b' →
+    absBk orig (f + p.length) pre c' =
+      setBucketAt p (b'.seq, entsA orig f (pre ++ p) b') (absBk orig (f + p.length) pre c)
+  | [], f, pre, c, c', b, b', h, hm, hg => by
+    rw [bkAt_nil] at h; cases h
+    rw [modifyBk_nil, hg] at hm; cases hm
+    rw [absBk_eq, absBk_eq, List.append_nil]; simp
+  | n :: rest, f, pre, c, c', b, b', h, hm, hg => by
+    obtain ⟨ch, h1, h2⟩ := bkAt_cons_some h
+    rw [modifyBk_cons g n rest c ch h1] at hm
+    obtain ⟨ch', hm', rfl⟩ := Option.map_eq_some_iff.mp hm
+    have ih := abs_modify orig g rest f (pre ++ [n]) ch ch' b b' h2 hm' hg
+    have e : pre ++ [n] ++ rest = pre ++ n :: rest := by simp
+    rw [e] at ih
+    rw [absBk_eq, absBk_eq, setBucketAt_cons, setOpened_seq]
+    congr 1
+    show List.map _ (flatten (Bk.setOpened _ c).tree) = entsUpdate n _ (List.map _ (flatten c.tree))
+    rw [setOpened_tree, setOpened_opened]
+    unfold entsUpdate
+    rw [List.map_map]
+    apply List.map_congr_left
+    intro i _
+    simp only [Function.comp]
+    rw [absIt_fst]
+    by_cases hf : i.flags % 2 = 1
+    · rw [absIt_bucket _ i hf, absIt_bucket _ i hf]
+      by_cases hk : i.key = n
+      · simp only [hk, beq_self_eq_true, if_true]
+        unfold subV
+        rw [lookupBk_replace, if_pos rfl, h1]
+        simp only [Option.map_some]
+        exact congrArg (Prod.mk n) ih
+      · have hk' : (i.key == n) = false := by simpa using hk
+        simp only [hk', Bool.false_eq_true, if_false]
+        unfold subV
+        rw [lookupBk_replace, if_neg hk]
+    · rw [absIt_plain _ i hf, absIt_plain _ i hf]
+      by_cases hk : i.key = n
+      · simp [hk]
+      · have hk' : (i.key == n) = false := by simpa using hk
+        simp only [hk', Bool.false_eq_true, if_false]
+
+/-- (C) … and keeps the invariant when the new bucket satisfies it -/
+theorem curOk_modify (orig : Bk) (g : Bk → Option Bk) : ∀ (p : List Bytes) (f : Nat) (pre : List Bytes)
+    (c c' b b' : Bk), curOk orig (f + p.length) pre c = true → bkAt p c = some b →
+    modifyBk g p c = some c' → g b = some b' → curOk orig f (pre ++ p) b' = true →
+    curOk orig (f + p.length) pre c' = true
+  | [], f, pre, c, c', b, b', hc, h, hm, hg, hb' => by
+    rw [bkAt_nil] at h; cases h
+    rw [modifyBk_nil, hg] at hm; cases hm
+    rw [List.append_nil] at hb'; exact hb'
+  | n :: rest, f, pre, c, c', b, b', hc, h, hm, hg, hb' => by
+    obtain ⟨ch, h1, h2⟩ := bkAt_cons_some h
+    rw [modifyBk_cons g n rest c ch h1] at hm
+    obtain ⟨ch', hm', rfl⟩ := Option.map_eq_some_iff.mp hm
+    have e : pre ++ [n] ++ rest = pre ++ n :: rest := by simp
+    have hc' := (curOk_succ orig (f + rest.length) pre c).mp hc
+    obtain ⟨c1, c2, c3, c4, c5, c6, c7⟩ := hc'
+    have hch := c6 _ (lookupBk_mem h1)
+    have ih := curOk_modify orig g rest f (pre ++ [n]) ch ch' b b' hch.2 h2 hm' hg (by rw [e]; exact hb')
+    apply (curOk_succ orig (f + rest.length) pre _).mpr
+    rw [setOpened_tree, setOpened_opened]
+    refine ⟨c1, c2, c3, c4, by rw [replace_names]; exact c5, ?_, ?_⟩
+    · intro q hq
+      obtain ⟨q0, hq0, rfl⟩ := List.mem_map.mp hq
+      by_cases hqn : q0.1 = n
+      · simp only [hqn, beq_self_eq_true, if_true]
+        exact ⟨hch.1, ih⟩
+      · have : (q0.1 == n) = false := by simpa using hqn
+        simp only [this, Bool.false_eq_true, if_false]
+        exact c6 q0 hq0
+    · intro m hm
+      rcases c7 m hm with h' | h'
+      · left
+        rw [lookupBk_replace]
+        by_cases hmn : m = n
+        · rw [if_pos hmn, h1]; rfl
+        · rw [if_neg hmn]; exact h'
+      · exact Or.inr h'
+
+/-- (D) replacing a bucket by itself changes nothing -/
+theorem modifyBk_id (orig : Bk) (g : Bk → Option Bk) : ∀ (p : List Bytes) (fu : Nat) (pre : List Bytes)
+    (c b : Bk), curOk orig fu pre c = true → bkAt p c = some b → g b = some b →
+    modifyBk g p c = some c
+  | [], fu, pre, c, b, _, h, hg => by
+    rw [bkAt_nil] at h; cases h; exact hg
+  | n :: rest, fu, pre, c, b, hc, h, hg => by
+    obtain ⟨ch, h1, h2⟩ := bkAt_cons_some h
+    obtain ⟨fu', rfl⟩ := curOk_pos hc
+    obtain ⟨_, _, _, _, c5, c6, _⟩ := (curOk_succ ..).mp hc
+    have hch := c6 _ (lookupBk_mem h1)
+    rw [modifyBk_cons g n rest c ch h1, modifyBk_id orig g rest fu' (pre ++ [n]) ch b hch.2 h2 hg]
+    simp only [Option.map_some]
+    rw [replace_id c5 h1, setOpened_self]
+
+
+/-! ### buckets of the state the transaction started from -/
+
+theorem closeAll_seq (b : Bk) : (closeAll b).seq = b.seq := by cases b; rfl
+theorem closeAll_tree (b : Bk) : (closeAll b).tree = b.tree := by cases b; rfl
+theorem closeAll_opened (b : Bk) : (closeAll b).opened = [] := by cases b; rfl
+
+theorem origOk_pos {ids : Bool} {g : Nat} {b : Bk} (h : origOkG ids g b = true) : ∃ g', g = g' + 1 := by
+  cases g with
+  | zero => rw [origOkG_zero] at h; cases h
+  | succ g' => exact ⟨g', rfl⟩
+
+/-- every bucket element of an original bucket is attached -/
+theorem orig_lookup {ids : Bool} {g : Nat} {d : Bk} (h : origOkG ids (g+1) d = true) {n : Bytes}
+    (hn : n ∈ bucketNames d.tree) : ∃ c2, lookupBk n d.opened = some c2 ∧ origOkG ids g c2 = true := by
+  obtain ⟨_, _, _, hnames, hall⟩ := (origOkG_succ ..).mp h
+  have : (lookupBk n d.opened).isSome = true := by rw [lookupBk_isSome, hnames]; exact hn
+  obtain ⟨c2, hc2⟩ := Option.isSome_iff_exists.mp this
+  exact ⟨c2, hc2, hall _ (lookupBk_mem hc2)⟩
+
+theorem origOk_at (ids : Bool) : ∀ (q : List Bytes) (g : Nat) (o c : Bk), origOkG ids g o = true →
+    bkAt q o = some c → ∃ g', g = g' + q.length ∧ origOkG ids g' c = true
+  | [], g, o, c, ho, h => by rw [bkAt_nil] at h; cases h; exact ⟨g, rfl, ho⟩
+  | n :: rest, g, o, c, ho, h => by
+    obtain ⟨ch, h1, h2⟩ := bkAt_cons_some h
+    obtain ⟨g1, rfl⟩ := origOk_pos ho
+    obtain ⟨_, _, _, _, hall⟩ := (origOkG_succ ..).mp ho
+    obtain ⟨g', hg', hc⟩ := origOk_at ids rest g1 ch c (hall _ (lookupBk_mem h1)) h2
+    exact ⟨g', by rw [hg']; rfl, hc⟩
+
+/-- the content of an original bucket does not depend on where it is looked at from -/
+theorem abs_orig (ids : Bool) : ∀ (f g : Nat) (c : Bk) (q : List Bytes) (d : Bk), origOkG ids g d = true →
+    bkAt q c = some d → absBk c f q d = absBk d f [] d
+  | 0, _, c, q, d, _, _ => by rw [absBk_eq, absBk_eq]; rfl
+  | f+1, g, c, q, d, hd, h => by
+    obtain ⟨g', rfl⟩ := origOk_pos hd
+    rw [absBk_eq, absBk_eq]
+    congr 1
+    show List.map _ _ = List.map _ _
+    apply List.map_congr_left
+    intro i hi
+    apply absIt_congr
+    intro hf
+    have hn : i.key ∈ bucketNames d.tree := mem_names.mpr ⟨i, hi, hf, rfl⟩
+    obtain ⟨c2, hc2, ho2⟩ := orig_lookup hd hn
+    unfold subV
+    simp only [hc2]
+    rw [abs_orig ids f g' c (q ++ [i.key]) c2 ho2 (by rw [bkAt_snoc _ h]; exact hc2),
+      abs_orig ids f g' d ([] ++ [i.key]) c2 ho2 (by rw [bkAt_snoc _ (bkAt_nil d)]; exact hc2)]
+
+/-- a freshly opened bucket has the content the file holds for it -/
+theorem abs_closeAll (ids : Bool) (orig : Bk) (f g : Nat) (q : List Bytes) (c : Bk)
+    (hc : origOkG ids g c = true) (h : bkAt q orig = some c) :
+    absBk orig f q (closeAll c) = absBk c f [] c := by
+  rw [absBk_eq, absBk_eq, closeAll_seq]
+  congr 1
+  cases f with
+  | zero => rfl
+  | succ f =>
+    obtain ⟨g', rfl⟩ := origOk_pos hc
+    show List.map _ (flatten (closeAll c).tree) = List.map _ _
+    rw [closeAll_tree, closeAll_opened]
+    apply List.map_congr_left
+    intro i hi
+    apply absIt_congr
+    intro hf
+    have hn : i.key ∈ bucketNames c.tree := mem_names.mpr ⟨i, hi, hf, rfl⟩
+    obtain ⟨c2, hc2, ho2⟩ := orig_lookup hc hn
+    unfold subV
+    rw [lookupBk_nil, bkAt_snoc _ h]
+    simp only [hc2]
+    rw [abs_orig ids f g' c ([] ++ [i.key]) c2 ho2 (by rw [bkAt_snoc _ (bkAt_nil c)]; exact hc2)]
+
+/-- … and is well-formed -/
+theorem curOk_closeAll (orig : Bk) (g : Nat) (q : List Bytes) (c : Bk)
+    (hc : origOkG true g c = true) (h : bkAt q orig = some c) : curOk orig g q (closeAll c) = true := by
+  obtain ⟨g', rfl⟩ := origOk_pos hc
+  obtain ⟨h1, h2, h3, h4, _⟩ := (origOkG_succ ..).mp hc
+  apply (curOk_succ ..).mpr
+  rw [closeAll_tree, closeAll_opened]
+  refine ⟨OpsL.committed_inTx _ h1, ?_, h2 rfl, h3, List.nodup_nil, fun q hq => (by cases hq), ?_⟩
+  · rw [tightN_eq]
+    exact RebL.tight_of_committed _ true none h1.1 (fun l hl => by cases hl)
+  · intro n hn
+    right
+    rw [bkAt_snoc _ h, lookupBk_isSome, h4]; exact hn
+
+
+/-! ### bucket names under the list operations -/
+
+theorem bktName_none {i : Item} (h : ¬ i.flags % 2 = 1) : bktName i = none := by
+  unfold bktName; rw [if_neg h]
+
+theorem bktName_some {i : Item} (h : i.flags % 2 = 1) : bktName i = some i.key := by
+  unfold bktName; rw [if_pos h]
+
+theorem names_insSorted (it : Item) (hit : ¬ it.flags % 2 = 1) : ∀ l : List Item,
+    (∀ x, l.find? (fun i => i.key == it.key) = some x → ¬ x.flags % 2 = 1) →
+    (insSorted it l).filterMap bktName = l.filterMap bktName
+  | [], _ => by simp [insSorted, bktName_none hit]
+  | x :: r, h => by
+    rw [OpsL.insSorted_cons]
+    by_cases h1 : it.key = x.key
+    · have hx : ¬ x.flags % 2 = 1 := h x (OpsL.find_cons_eq _ h1.symm)
+      simp [h1, List.filterMap_cons, bktName_none hit, bktName_none hx]
+    · have h1' : (it.key == x.key) = false := by simpa using h1
+      rw [h1']
+      simp only [Bool.false_eq_true, if_false]
+      by_cases h2 : Bytes.lt it.key x.key = true
+      · rw [if_pos h2, List.filterMap_cons, bktName_none hit]
+      · rw [if_neg h2, List.filterMap_cons, List.filterMap_cons (a := x),
+          names_insSorted it hit r (fun y hy => h y (by rw [OpsL.find_cons_ne _ (fun e => h1 e.symm)]; exact hy))]
+
+theorem filterMap_filter_none {α β} (F : α → Option β) (p : α → Bool) : ∀ l : List α,
+    (∀ x ∈ l, p x = false → F x = none) → (l.filter p).filterMap F = l.filterMap F
+  | [], _ => rfl
+  | a :: r, h => by
+    have ih := filterMap_filter_none F p r (fun x hx => h x (List.mem_cons_of_mem _ hx))
+    rw [List.filter_cons]
+    cases hp : p a with
+    | true => simp only [if_true]; rw [List.filterMap_cons, List.filterMap_cons, ih]
+    | false =>
+      simp only [Bool.false_eq_true, if_false]
+      rw [List.filterMap_cons, h a (List.mem_cons_self ..) hp, ih]
+
+theorem names_filter (k : Bytes) {l : List Item} (hs : OpsL.SortedI l)
+    (h : ∀ x, l.find? (fun i => i.key == k) = some x → ¬ x.flags % 2 = 1) :
+    (l.filter (fun i => !(i.key == k))).filterMap bktName = l.filterMap bktName := by
+  apply filterMap_filter_none
+  intro x hx hp
+  have hk : x.key = k := by simpa using hp
+  apply bktName_none
+  apply h x
+  rw [← hk]; exact find_of_mem hs x hx
+
+theorem isBucketAt_false {l : List Item} {k : Bytes} (h : isBucketAt l k = false) :
+    ∀ x, l.find? (fun i => i.key == k) = some x → ¬ x.flags % 2 = 1 := by
+  intro x hx hf
+  unfold isBucketAt at h
+  rw [hx] at h
+  simp [hf] at h
+
+theorem names_specPut {l : List Item} (k v : Bytes) :
+    (specPut l k v).filterMap bktName = l.filterMap bktName := by
+  unfold specPut
+  cases hb : isBucketAt l k with
+  | true => rfl
+  | false =>
+    simp only [Bool.false_eq_true, if_false]
+    exact names_insSorted _ (by show ¬ 0 % 2 = 1; decide) l (isBucketAt_false hb)
+
+theorem names_specDel {l : List Item} (hs : OpsL.SortedI l) (k : Bytes) :
+    (specDel l k).filterMap bktName = l.filterMap bktName := by
+  unfold specDel
+  cases hb : isBucketAt l k with
+  | true => rfl
+  | false =>
+    simp only [Bool.false_eq_true, if_false]
+    exact names_filter k hs (isBucketAt_false hb)
+
+/-! ### `Put` / `Delete` on one bucket -/
+
+theorem entsA_succ (orig : Bk) (f : Nat) (path : List Bytes) (b : Bk) :
+    entsA orig (f+1) path b = (flatten b.tree).map (absIt (subV orig f path b.opened)) := rfl
+
+/-- replacing the tree by one with the same page ids, depth, names -/
+theorem curOk_setTree {orig : Bk} {f : Nat} {path : List Bytes} {b : Bk} {t' : N}
+    (hc : curOk orig (f+1) path b = true) (h1 : InTx t') (h2 : tightN none t' = true)
+    (h3 : pgids t' = pgids b.tree) (h4 : depth t' = depth b.tree)
+    (h5 : bucketNames t' = bucketNames b.tree) : curOk orig (f+1) path (b.setTree t') = true := by
+  obtain ⟨_, _, c3, c4, c5, c6, c7⟩ := (curOk_succ ..).mp hc
+  apply (curOk_succ ..).mpr
+  rw [setTree_tree, setTree_opened, h3, h4, h5]
+  exact ⟨h1, h2, c3, c4, c5, c6, c7⟩
+
+theorem put_local (orig : Bk) (fu f : Nat) (path : List Bytes) (b : Bk) (k v : Bytes)
+    (hc : curOk orig (f+1) path b = true) (hfu : f ≤ fu) (hk : k ≠ []) :
+    ∃ b', putAt fu k v b = some b' ∧ curOk orig (f+1) path b' = true ∧ b'.seq = b.seq ∧
+      entsA orig (f+1) path b' =
+        (specPut (flatten b.tree) k v).map (absIt (subV orig f path b.opened)) := by
+  obtain ⟨c1, c2, c3, c4, c5, c6, c7⟩ := (curOk_succ ..).mp hc
+  obtain ⟨t', e, hin, hd, hfl⟩ := OpsL.putT_ok fu b.tree k v c1 hk (Nat.le_trans c4 hfu)
+  refine ⟨b.setTree t', by unfold putAt; rw [e]; rfl, ?_, setTree_seq .., ?_⟩
+  · apply curOk_setTree hc hin ?_ (OpsL.putT_pgids _ _ _ _ _ e) hd
+    · rw [bucketNames_eq, bucketNames_eq, hfl]; exact names_specPut k v
+    · rw [tightN_eq] at c2 ⊢
+      exact RebL.applyOp_tight (o := .put k v) e c2
+  · rw [entsA_succ, setTree_tree, setTree_opened, hfl]
+
+theorem del_local (orig : Bk) (fu f : Nat) (path : List Bytes) (b : Bk) (k : Bytes)
+    (hc : curOk orig (f+1) path b = true) (hfu : f ≤ fu) :
+    ∃ b', delAt fu k b = some b' ∧ curOk orig (f+1) path b' = true ∧ b'.seq = b.seq ∧
+      entsA orig (f+1) path b' =
+        (specDel (flatten b.tree) k).map (absIt (subV orig f path b.opened)) := by
+  obtain ⟨c1, c2, c3, c4, c5, c6, c7⟩ := (curOk_succ ..).mp hc
+  obtain ⟨t', e, hin, hd, hfl⟩ := OpsL.delT_ok fu b.tree k c1 (Nat.le_trans c4 hfu)
+  refine ⟨b.setTree t', by unfold delAt; rw [e]; rfl, ?_, setTree_seq .., ?_⟩
+  · apply curOk_setTree hc hin ?_ (OpsL.delT_pgids _ _ _ _ e) hd
+    · rw [bucketNames_eq, bucketNames_eq, hfl]; exact names_specDel (inTx_sorted c1) k
+    · rw [tightN_eq] at c2 ⊢
+      exact RebL.applyOp_tight (o := .del k) e c2
+  · rw [entsA_succ, setTree_tree, setTree_opened, hfl]
+
+
+/-! ### `node.put` with a flags argument -/
+
+theorem leafPutF_eq (k v : Bytes) (fl : Nat) (h : Hd) (items : List Item) :
+    leafPutF k v fl (.leaf h items) = some (.leaf h (insSorted { key := k, val := v, flags := fl } items)) := by
+  rw [← OpsL.putItems_eq]
+  unfold leafPutF OpsL.putItems
+  simp only
+  split <;> rfl
+
+theorem leafOK_putF (k v : Bytes) (fl : Nat) (hk : k ≠ []) :
+    OpsL.LeafOK k (leafPutF k v fl) (insSorted { key := k, val := v, flags := fl }) := by
+  intro root lo hi h items hm hn hr
+  refine ⟨h, leafPutF_eq k v fl h items, hm, rfl, rfl, ?_⟩
+  rw [OpsL.inTxN_leaf] at hn ⊢
+  obtain ⟨h1, _, h3, h4⟩ := hn
+  refine ⟨h1, Or.inr (Or.inl ?_), OpsL.insSorted_sorted _ items h3, ?_⟩
+  · intro e
+    have := OpsL.insSorted_find_same { key := k, val := v, flags := fl } items
+    rw [e] at this; simp at this
+  · intro x hx
+    rcases OpsL.insSorted_mem _ items x hx with rfl | hx
+    · exact ⟨hk, hr⟩
+    · exact h4 x hx
+
+theorem leafPutF_pgids (k v : Bytes) (fl : Nat) : ∀ n n', leafPutF k v fl n = some n' → pgids n' = pgids n
+  | .leaf h items, n', e => by
+    rw [leafPutF_eq] at e; cases e; rw [OpsL.pgids_leaf, OpsL.pgids_leaf]
+  | .branch _ _, n', e => by simp [leafPutF] at e
+
+theorem leafPutF_leaf (k v : Bytes) (fl : Nat) :
+    ∀ x x', leafPutF k v fl x = some x' → ∃ h items, x' = .leaf h items
+  | .leaf h items, x', e => by rw [leafPutF_eq] at e; cases e; exact ⟨_, _, rfl⟩
+  | .branch _ _, x', e => by simp [leafPutF] at e
+
+theorem mem_insSorted_self (it : Item) (l : List Item) : it ∈ insSorted it l :=
+  List.mem_of_find?_eq_some (OpsL.insSorted_find_same it l)
+
+theorem mem_insSorted_of_mem (it : Item) : ∀ (l : List Item) (x : Item), x ∈ l → x.key ≠ it.key →
+    x ∈ insSorted it l
+  | [], x, hx, _ => by cases hx
+  | a :: r, x, hx, hne => by
+    rw [OpsL.insSorted_cons]
+    by_cases h1 : it.key = a.key
+    · simp only [h1, beq_self_eq_true, if_true]
+      rcases List.mem_cons.mp hx with rfl | hx
+      · exact absurd h1.symm hne
+      · exact List.mem_cons_of_mem _ hx
+    · have h1' : (it.key == a.key) = false := by simpa using h1
+      rw [h1']
+      simp only [Bool.false_eq_true, if_false]
+      by_cases h2 : Bytes.lt it.key a.key = true
+      · rw [if_pos h2]; exact List.mem_cons_of_mem _ hx
+      · rw [if_neg h2]
+        rcases List.mem_cons.mp hx with rfl | hx
+        · exact List.mem_cons_self ..
+        · exact List.mem_cons_of_mem _ (mem_insSorted_of_mem it r x hx hne)
+
+/-- the names after a new bucket element went in -/
+theorem names_insBucket (it : Item) (hit : it.flags % 2 = 1) (l : List Item)
+    (hnone : l.find? (fun i => i.key == it.key) = none) (n : Bytes) :
+    n ∈ (insSorted it l).filterMap bktName ↔ n = it.key ∨ n ∈ l.filterMap bktName := by
+  rw [mem_names, mem_names]
+  constructor
+  · rintro ⟨i, hi, hf, rfl⟩
+    rcases OpsL.insSorted_mem it l i hi with rfl | hi
+    · exact Or.inl rfl
+    · exact Or.inr ⟨i, hi, hf, rfl⟩
+  · rintro (rfl | ⟨i, hi, hf, rfl⟩)
+    · exact ⟨it, mem_insSorted_self it l, hit, rfl⟩
+    · refine ⟨i, mem_insSorted_of_mem it l i hi ?_, hf, rfl⟩
+      have := List.find?_eq_none.mp hnone i hi
+      simpa using this
+
+theorem names_erase (k : Bytes) (l : List Item) (n : Bytes) :
+    n ∈ (l.filter (fun i => !(i.key == k))).filterMap bktName ↔ n ∈ l.filterMap bktName ∧ n ≠ k := by
+  rw [mem_names, mem_names]
+  constructor
+  · rintro ⟨i, hi, hf, rfl⟩
+    obtain ⟨h1, h2⟩ := List.mem_filter.mp hi
+    exact ⟨⟨i, h1, hf, rfl⟩, by simpa using h2⟩
+  · rintro ⟨⟨i, hi, hf, rfl⟩, hne⟩
+    exact ⟨i, List.mem_filter.mpr ⟨hi, by simpa using hne⟩, hf, rfl⟩
+
+/-! ### `CreateBucket` / `DeleteBucket` / `SetSequence` / `Bucket` on one bucket -/
+
+theorem absBk_emptyInline (orig : Bk) (f : Nat) (q : List Bytes) : absBk orig f q emptyInline = .bkt 0 [] := by
+  rw [absBk_eq]
+  cases f <;> rfl
+
+theorem curOk_emptyInline (orig : Bk) (f : Nat) (q : List Bytes) : curOk orig (f+2) q emptyInline = true := by
+  apply (curOk_succ ..).mpr
+  refine ⟨by decide, rfl, by decide, ?_, List.nodup_nil, fun q hq => (by cases hq), fun n hn => (by cases hn)⟩
+  show depth (N.leaf _ []) ≤ f + 1
+  rw [OpsL.depth_leaf]; omega
+
+/-- the cache after `CreateBucket` / `DeleteBucket` answers as before for every other name -/
+theorem lookupBk_created (name k : Bytes) (c : Bk) (o : List (Bytes × Bk)) (hk : k ≠ name) :
+    lookupBk k (o.filter (fun p => !(p.1 == name)) ++ [(name, c)]) = lookupBk k o := by
+  rw [lookupBk_snoc, lookupBk_filter, if_neg hk, if_neg (fun e => hk e.symm)]
+  cases lookupBk k o <;> rfl
+
+theorem subV_congr (orig : Bk) (f : Nat) (path : List Bytes) (o o' : List (Bytes × Bk)) (n : Bytes)
+    (h : lookupBk n o' = lookupBk n o) : subV orig f path o' n = subV orig f path o n := by
+  unfold subV; rw [h]
+
+theorem nodup_filter_names (name : Bytes) {o : List (Bytes × Bk)} (h : (o.map (·.1)).Nodup) :
+    ((o.filter (fun p => !(p.1 == name))).map (·.1)).Nodup :=
+  List.Nodup.sublist (List.Sublist.map _ List.filter_sublist) h
+
+theorem create_local (orig : Bk) (fu f : Nat) (path : List Bytes) (b : Bk) (name : Bytes)
+    (hc : curOk orig (f+1) path b = true) (hfu : f ≤ fu) (hf2 : 2 ≤ f) :
+    (createAt fu name b = none ∧
+      (name = [] ∨ ((flatten b.tree).find? (fun i => i.key == name)).isSome = true)) ∨
+    (∃ b', createAt fu name b = some b' ∧ name ≠ [] ∧
+      (flatten b.tree).find? (fun i => i.key == name) = none ∧
+      curOk orig (f+1) path b' = true ∧ b'.seq = b.seq ∧
+      entsA orig (f+1) path b' = entsInsert name (.bkt 0 []) (entsA orig (f+1) path b) ∧
+      (lookupBk name b'.opened).isSome = true) := by
+  obtain ⟨c1, c2, c3, c4, c5, c6, c7⟩ := (curOk_succ ..).mp hc
+  have hdf : depth b.tree ≤ fu := Nat.le_trans c4 hfu
+  have hseek := OpsL.seek_find name fu b.tree true true none none hdf c1 (OpsL.inR_none name)
+  by_cases hn : name = []
+  · left; exact ⟨by unfold createAt; rw [if_pos hn], Or.inl hn⟩
+  have hcre : createAt fu name b =
+      if ((flatten b.tree).find? (fun i => i.key == name)).isSome then none else createAt.go fu name b := by
+    unfold createAt
+    rw [if_neg hn, hseek]
+    cases seekItem name fu b.tree with
+    | none => simp
+    | some it => by_cases hk : it.key = name <;> simp [Option.filter, hk]
+  cases hfind : (flatten b.tree).find? (fun i => i.key == name) with
+  | some i =>
+    left
+    rw [hfind] at hcre
+    exact ⟨hcre, Or.inr rfl⟩
+  | none =>
+    right
+    rw [hfind] at hcre
+    simp only [Option.isSome_none, Bool.false_eq_true, if_false] at hcre
+    obtain ⟨t', e, hin, _, hd, hfl⟩ := OpsL.modify_ok name (leafPutF name newBucketVal 1)
+      (insSorted { key := name, val := newBucketVal, flags := 1 }) (leafOK_putF name newBucketVal 1 hn)
+      (OpsL.loc_insSorted { key := name, val := newBucketVal, flags := 1 }) fu b.tree true true none none
+      hdf c1 (OpsL.inR_none name)
+    have hnames : ∀ n, n ∈ bucketNames t' ↔ n = name ∨ n ∈ bucketNames b.tree := by
+      intro n
+      rw [bucketNames_eq, bucketNames_eq, hfl]
+      exact names_insBucket { key := name, val := newBucketVal, flags := 1 } rfl _ hfind n
+    refine ⟨_, by rw [hcre]; unfold createAt.go; rw [e]; rfl, hn, rfl, ?_, ?_, ?_, ?_⟩
+    · apply (curOk_succ ..).mpr
+      rw [setOpened_tree, setOpened_opened, setTree_tree]
+      refine ⟨hin, ?_, ?_, by rw [hd]; exact c4, ?_, ?_, ?_⟩
+      · rw [tightN_eq] at c2 ⊢
+        exact RebL.modifyAt_tight (leafPutF_leaf name newBucketVal 1) _ _ _ e _ c2
+      · rw [OpsL.modifyAt_pgids _ (leafPutF_pgids name newBucketVal 1) _ _ _ e]; exact c3
+      · rw [List.map_append, List.nodup_append]
+        refine ⟨nodup_filter_names name c5, by simp, ?_⟩
+        intro a ha b' hb'
+        obtain ⟨q, hq, rfl⟩ := List.mem_map.mp ha
+        have := (List.mem_filter.mp hq).2
+        simp only [List.map_cons, List.map_nil, List.mem_singleton] at hb'
+        subst hb'
+        simpa using this
+      · intro q hq
+        rcases List.mem_append.mp hq with hq | hq
+        · obtain ⟨hq1, _⟩ := List.mem_filter.mp hq
+          exact ⟨(hnames _).mpr (Or.inr (c6 q hq1).1), (c6 q hq1).2⟩
+        · simp only [List.mem_singleton] at hq
+          subst hq
+          obtain ⟨f', rfl⟩ : ∃ f', f = f' + 2 := ⟨f - 2, by omega⟩
+          exact ⟨(hnames _).mpr (Or.inl rfl), curOk_emptyInline ..⟩
+      · intro n hn'
+        by_cases hnn : n = name
+        · left; subst hnn
+          rw [lookupBk_snoc, if_pos rfl]
+          cases lookupBk n (b.opened.filter _) <;> rfl
+        · rw [lookupBk_created name n _ _ hnn]
+          rcases (hnames n).mp hn' with h' | h'
+          · exact absurd h' hnn
+          · exact c7 n h'
+    · rw [setOpened_seq, setTree_seq]
+    · rw [entsA_succ, entsA_succ, setOpened_tree, setOpened_opened, setTree_tree, hfl,
+        BridgeL.insSorted_map _ (absIt_fst _)]
+      have h1 : (absIt (subV orig f path (b.opened.filter (fun p => !(p.1 == name)) ++ [(name, emptyInline)]))
+          { key := name, val := newBucketVal, flags := 1 }).2 = .bkt 0 [] := by
+        rw [absIt_bucket _ _ rfl]
+        show subV _ _ _ _ name = _
+        unfold subV
+        have : lookupBk name (b.opened.filter (fun p => !(p.1 == name)) ++ [(name, emptyInline)]) =
+            some emptyInline := by
+          rw [lookupBk_snoc, lookupBk_filter, if_pos rfl, if_pos rfl]; rfl
+        simp only [this]
+        exact absBk_emptyInline ..
+      rw [h1]
+      congr 1
+      apply List.map_congr_left
+      intro i hi
+      apply absIt_congr
+      intro _
+      apply subV_congr
+      apply lookupBk_created
+      have := List.find?_eq_none.mp hfind i hi
+      simpa using this
+    · rw [setOpened_opened, lookupBk_snoc, if_pos rfl]
+      cases lookupBk name (b.opened.filter _) <;> rfl
+
+
+theorem lookupBk_deleted (name k : Bytes) (o : List (Bytes × Bk)) (hk : k ≠ name) :
+    lookupBk k (o.filter (fun p => !(p.1 == name))) = lookupBk k o := by
+  rw [lookupBk_filter, if_neg hk]
+
+theorem delete_local (orig : Bk) (fu f : Nat) (path : List Bytes) (b : Bk) (name : Bytes)
+    (hc : curOk orig (f+1) path b = true) (hfu : f ≤ fu) :
+    (deleteAt fu name b = none ∧
+      ∀ i, (flatten b.tree).find? (fun i => i.key == name) = some i → ¬ i.flags % 2 = 1) ∨
+    (∃ b' i, deleteAt fu name b = some b' ∧
+      (flatten b.tree).find? (fun i => i.key == name) = some i ∧ i.flags % 2 = 1 ∧
+      curOk orig (f+1) path b' = true ∧ b'.seq = b.seq ∧
+      entsA orig (f+1) path b' = entsErase name (entsA orig (f+1) path b)) := by
+  obtain ⟨c1, c2, c3, c4, c5, c6, c7⟩ := (curOk_succ ..).mp hc
+  have hdf : depth b.tree ≤ fu := Nat.le_trans c4 hfu
+  have hseek := OpsL.seek_find name fu b.tree true true none none hdf c1 (OpsL.inR_none name)
+  have hdel : deleteAt fu name b =
+      match (flatten b.tree).find? (fun i => i.key == name) with
+      | some i => if i.flags % 2 = 1 then
+          (modifyAt (leafDel name) (searchPath name fu b.tree) b.tree).map (fun t =>
+            (b.setTree t).setOpened (b.opened.filter (fun p => !(p.1 == name))))
+          else none
+      | none => none := by
+    unfold deleteAt
+    rw [hseek]
+    cases seekItem name fu b.tree with
+    | none => simp
+    | some it =>
+      by_cases hk : it.key = name
+      · by_cases hf : it.flags % 2 = 1 <;> simp [Option.filter, hk, hf]
+      · simp [Option.filter, hk]
+  cases hfind : (flatten b.tree).find? (fun i => i.key == name) with
+  | none =>
+    left
+    rw [hfind] at hdel
+    exact ⟨hdel, fun i hi => by cases hi⟩
+  | some i =>
+    rw [hfind] at hdel
+    simp only at hdel
+    by_cases hf : i.flags % 2 = 1
+    · right
+      rw [if_pos hf] at hdel
+      obtain ⟨t', e, hin, _, hd, hfl⟩ := OpsL.modify_ok name (leafDel name)
+        (fun l => l.filter (fun i => !(i.key == name))) (OpsL.leafOK_del name) (OpsL.loc_filter name)
+        fu b.tree true true none none hdf c1 (OpsL.inR_none name)
+      have hnames : ∀ n, n ∈ bucketNames t' ↔ n ∈ bucketNames b.tree ∧ n ≠ name := by
+        intro n
+        rw [bucketNames_eq, bucketNames_eq, hfl]
+        exact names_erase name _ n
+      refine ⟨_, i, by rw [hdel, e]; rfl, rfl, hf, ?_, ?_, ?_⟩
+      · apply (curOk_succ ..).mpr
+        rw [setOpened_tree, setOpened_opened, setTree_tree]
+        refine ⟨hin, ?_, ?_, by rw [hd]; exact c4, nodup_filter_names name c5, ?_, ?_⟩
+        · rw [tightN_eq] at c2 ⊢
+          exact RebL.modifyAt_tight (RebL.leafDel_leaf name) _ _ _ e _ c2
+        · rw [OpsL.modifyAt_pgids _ (OpsL.leafDel_pgids name) _ _ _ e]; exact c3
+        · intro q hq
+          obtain ⟨hq1, hq2⟩ := List.mem_filter.mp hq
+          exact ⟨(hnames _).mpr ⟨(c6 q hq1).1, by simpa using hq2⟩, (c6 q hq1).2⟩
+        · intro n hn'
+          obtain ⟨h1, h2⟩ := (hnames n).mp hn'
+          rw [lookupBk_deleted name n _ h2]
+          exact c7 n h1
+      · rw [setOpened_seq, setTree_seq]
+      · rw [entsA_succ, entsA_succ, setOpened_tree, setOpened_opened, setTree_tree, hfl,
+          ← BridgeL.filter_map _ (absIt_fst _)]
+        apply List.map_congr_left
+        intro x hx
+        apply absIt_congr
+        intro _
+        apply subV_congr
+        apply lookupBk_deleted
+        have := (List.mem_filter.mp hx).2
+        simpa using this
+    · left
+      rw [if_neg hf] at hdel
+      refine ⟨hdel, fun j hj => ?_⟩
+      cases hj; exact hf
+
+/-! `SetSequence` -/
+
+theorem inTx_materialize {t : N} (h : InTx t) : InTx (materialize t) := by
+  unfold InTx at h ⊢
+  cases t with
+  | leaf hd items =>
+    rw [OpsL.materialize_leaf]
+    rw [OpsL.inTxN_leaf] at h ⊢
+    exact ⟨OpsL.mhd_ok .., Or.inl rfl, h.2.2⟩
+  | branch hd kids =>
+    rw [OpsL.materialize_branch]
+    rw [OpsL.inTxN_branch] at h ⊢
+    refine ⟨OpsL.mhd_ok .., h.2.1, h.2.2.1, h.2.2.2.1, ?_⟩
+    rw [OpsL.mhd_mat]
+    exact OpsL.inTxKids_pmat h.2.2.2.2
+
+theorem materialize_flatten (t : N) : flatten (materialize t) = flatten t := by
+  cases t with
+  | leaf hd items => rw [OpsL.materialize_leaf, OpsL.flatten_leaf, OpsL.flatten_leaf]
+  | branch hd kids => rw [OpsL.materialize_branch, OpsL.flatten_branch, OpsL.flatten_branch]
+
+theorem materialize_depth (t : N) : depth (materialize t) = depth t := by
+  cases t with
+  | leaf hd items => rw [OpsL.materialize_leaf, OpsL.depth_leaf, OpsL.depth_leaf]
+  | branch hd kids => rw [OpsL.materialize_branch, OpsL.depth_branch, OpsL.depth_branch]
+
+theorem materialize_tight (lo : Option Bytes) (t : N) : tightN lo (materialize t) = tightN lo t := by
+  cases t with
+  | leaf hd items => rw [OpsL.materialize_leaf]; simp only [tightN]
+  | branch hd kids => rw [OpsL.materialize_branch]; simp only [tightN]
+
+theorem setSeq_local (orig : Bk) (f : Nat) (path : List Bytes) (b : Bk) (s : Nat)
+    (hc : curOk orig (f+1) path b = true) :
+    ∃ b', setSeqAt s b = some b' ∧ curOk orig (f+1) path b' = true ∧ b'.seq = s ∧
+      entsA orig (f+1) path b' = entsA orig (f+1) path b := by
+  obtain ⟨c1, c2, c3, c4, c5, c6, c7⟩ := (curOk_succ ..).mp hc
+  refine ⟨_, rfl, ?_, setSeq_seq .., ?_⟩
+  · apply (curOk_succ ..).mpr
+    rw [setSeq_tree, setSeq_opened, setTree_tree, setTree_opened, OpsL.materialize_pgids,
+      materialize_depth, materialize_tight, bucketNames_eq, materialize_flatten, ← bucketNames_eq]
+    exact ⟨inTx_materialize c1, c2, c3, c4, c5, c6, c7⟩
+  · rw [entsA_succ, entsA_succ, setSeq_tree, setSeq_opened, setTree_tree, setTree_opened,
+      materialize_flatten]
+
+/-! `Bucket` -/
+
+theorem open_local (orig : Bk) (fu f g : Nat) (path : List Bytes) (b : Bk) (name : Bytes)
+    (ho : origOkG true g orig = true) (hg : g = f + 1 + path.length)
+    (hc : curOk orig (f+1) path b = true) (hfu : f ≤ fu) :
+    (openAt fu orig path name b = none ∧ name ∉ bucketNames b.tree) ∨
+    (∃ b', openAt fu orig path name b = some b' ∧ name ∈ bucketNames b.tree ∧
+      curOk orig (f+1) path b' = true ∧ b'.seq = b.seq ∧
+      entsA orig (f+1) path b' = entsA orig (f+1) path b ∧
+      (lookupBk name b'.opened).isSome = true) := by
+  obtain ⟨c1, c2, c3, c4, c5, c6, c7⟩ := (curOk_succ ..).mp hc
+  have hdf : depth b.tree ≤ fu := Nat.le_trans c4 hfu
+  have hseek := OpsL.seek_find name fu b.tree true true none none hdf c1 (OpsL.inR_none name)
+  have hs := inTx_sorted c1
+  cases hl : lookupBk name b.opened with
+  | some ch =>
+    right
+    refine ⟨b, by unfold openAt; rw [hl], (c6 _ (lookupBk_mem hl)).1, hc, rfl, rfl, by rw [hl]; rfl⟩
+  | none =>
+    have hop : openAt fu orig path name b =
+        match (flatten b.tree).find? (fun i => i.key == name) with
+        | some i => if i.flags % 2 = 1 then
+            (bkAt (path ++ [name]) orig).map (fun c => b.setOpened (b.opened ++ [(name, closeAll c)]))
+            else none
+        | none => none := by
+      unfold openAt
+      rw [hl, hseek]
+      cases seekItem name fu b.tree with
+      | none => simp
+      | some it =>
+        by_cases hk : it.key = name
+        · by_cases hf : it.flags % 2 = 1 <;> simp [Option.filter, hk, hf]
+        · simp [Option.filter, hk]
+    cases hfind : (flatten b.tree).find? (fun i => i.key == name) with
+    | none =>
+      left
+      rw [hfind] at hop
+      refine ⟨hop, fun hn => ?_⟩
+      obtain ⟨i, hi, _⟩ := (names_find hs).mp hn
+      rw [hfind] at hi; cases hi
+    | some i =>
+      rw [hfind] at hop
+      simp only at hop
+      by_cases hf : i.flags % 2 = 1
+      · right
+        rw [if_pos hf] at hop
+        have hname : name ∈ bucketNames b.tree := (names_find hs).mpr ⟨i, hfind, hf⟩
+        have hbk : (bkAt (path ++ [name]) orig).isSome = true := by
+          rcases c7 name hname with h' | h'
+          · rw [hl] at h'; cases h'
+          · exact h'
+        obtain ⟨c, hcq⟩ := Option.isSome_iff_exists.mp hbk
+        rw [hcq] at hop
+        obtain ⟨g', hg', hoc⟩ := origOk_at true _ g orig c ho hcq
+        have hgf : g' = f := by
+          rw [hg, List.length_append] at hg'
+          simp only [List.length_cons, List.length_nil] at hg'
+          omega
+        subst hgf
+        refine ⟨_, hop, hname, ?_, setOpened_seq .., ?_, ?_⟩
+        · apply (curOk_succ ..).mpr
+          rw [setOpened_tree, setOpened_opened]
+          refine ⟨c1, c2, c3, c4, ?_, ?_, ?_⟩
+          · rw [List.map_append, List.nodup_append]
+            refine ⟨c5, by simp, ?_⟩
+            intro a ha b' hb'
+            simp only [List.map_cons, List.map_nil, List.mem_singleton] at hb'
+            subst hb'
+            intro e; subst e
+            exact (lookupBk_none _ _).mp hl ha
+          · intro q hq
+            rcases List.mem_append.mp hq with hq | hq
+            · exact c6 q hq
+            · simp only [List.mem_singleton] at hq
+              subst hq
+              exact ⟨hname, curOk_closeAll orig g' (path ++ [name]) c hoc hcq⟩
+          · intro n hn'
+            rcases c7 n hn' with h' | h'
+            · left
+              rw [lookupBk_snoc]
+              obtain ⟨x, hx⟩ := Option.isSome_iff_exists.mp h'
+              rw [hx]; rfl
+            · exact Or.inr h'
+        · rw [entsA_succ, entsA_succ, setOpened_tree, setOpened_opened]
+          apply List.map_congr_left
+          intro x hx
+          apply absIt_congr
+          intro _
+          by_cases hxn : x.key = name
+          · rw [hxn]
+            unfold subV
+            have : lookupBk name (b.opened ++ [(name, closeAll c)]) = some (closeAll c) := by
+              rw [lookupBk_snoc, hl, if_pos rfl]; rfl
+            simp only [this, hl, hcq]
+            exact abs_closeAll true orig g' (g') (path ++ [name]) c hoc hcq
+          · apply subV_congr
+            rw [lookupBk_snoc, if_neg (fun e => hxn e.symm)]
+            cases lookupBk x.key b.opened <;> rfl
+        · rw [setOpened_opened, lookupBk_snoc, hl, if_pos rfl]; rfl
+      · left
+        rw [if_neg hf] at hop
+        refine ⟨hop, fun hn => ?_⟩
+        obtain ⟨j, hj, hjf⟩ := (names_find hs).mp hn
+        rw [hfind] at hj; cases hj
+        exact hf hjf
+
+
+/-! ### the whole state -/
+
+theorem absTop_bucketAt (fu : Nat) (orig cur : Bk) (p : List Bytes) :
+    bucketAt (topName :: p) (absTop fu orig cur) = bucketAt p (absBk orig fu [] cur) := by
+  unfold absTop
+  rw [bucketAt_cons, entsLookup_cons, if_pos rfl]; rfl
+
+theorem absTop_set (fu : Nat) (orig cur : Bk) (p : List Bytes) (x : Nat × Ents) :
+    setBucketAt (topName :: p) x (absTop fu orig cur) =
+      .bkt 0 [(topName, setBucketAt p x (absBk orig fu [] cur))] := by
+  unfold absTop
+  rw [setBucketAt_cons]
+  simp [entsUpdate]
+
+/-- everything the refinement theorems need about the bucket at an opened path -/
+theorem frame (fu : Nat) (orig cur : Bk) (p : List Bytes) (b : Bk)
+    (hw : curOk orig fu [] cur = true) (hb : bkAt p cur = some b) :
+    ∃ f, fu = f + 1 + p.length ∧ curOk orig (f+1) p b = true ∧
+      bucketAt (topName :: p) (absTop fu orig cur) = some (b.seq, entsA orig (f+1) p b) ∧
+      (∀ (g : Bk → Option Bk) (b' : Bk), g b = some b' → curOk orig (f+1) p b' = true →
+        ∃ cur', modifyBk g p cur = some cur' ∧ curOk orig fu [] cur' = true ∧ bkAt p cur' = some b' ∧
+          absTop fu orig cur' =
+            setBucketAt (topName :: p) (b'.seq, entsA orig (f+1) p b') (absTop fu orig cur)) ∧
+      (∀ g : Bk → Option Bk, g b = none → modifyBk g p cur = none) ∧
+      (∀ g : Bk → Option Bk, g b = some b → modifyBk g p cur = some cur) ∧
+      setBucketAt (topName :: p) (b.seq, entsA orig (f+1) p b) (absTop fu orig cur) = absTop fu orig cur := by
+  obtain ⟨f0, hfu, hcb, hba⟩ := bucketAt_abs orig p fu [] cur b hw hb
+  rw [List.nil_append] at hcb hba
+  obtain ⟨f, rfl⟩ := curOk_pos hcb
+  subst hfu
+  have hid : ∀ g : Bk → Option Bk, g b = some b → modifyBk g p cur = some cur :=
+    fun g hg => modifyBk_id orig g p _ [] cur b hw hb hg
+  refine ⟨f, rfl, hcb, by rw [absTop_bucketAt]; exact hba, ?_, fun g hg => modifyBk_none g p cur b hb hg,
+    hid, ?_⟩
+  · intro g b' hg hcb'
+    obtain ⟨cur', hm, hb'⟩ := modifyBk_some g p cur b b' hb hg
+    refine ⟨cur', hm, ?_, hb', ?_⟩
+    · exact curOk_modify orig g p (f+1) [] cur cur' b b' hw hb hm hg (by rw [List.nil_append]; exact hcb')
+    · have := abs_modify orig g p (f+1) [] cur cur' b b' hb hm hg
+      rw [List.nil_append] at this
+      rw [absTop_set, ← this]; rfl
+  · have := abs_modify orig some p (f+1) [] cur cur b b hb (hid some rfl) rfl
+    rw [List.nil_append] at this
+    rw [absTop_set, ← this]; rfl
+
+/-! ### the reference model on the abstraction of one bucket -/
+
+theorem apiPath_ne (p : List Bytes) : (topName :: p).isEmpty = false := rfl
+
+theorem absIt_snd_bucket (sub : Bytes → SVal) (hsub : ∀ n, (sub n).isBucket = true) (i : Item) :
+    (absIt sub i).2.isBucket = decide (i.flags % 2 = 1) := by
+  by_cases hf : i.flags % 2 = 1
+  · rw [absIt_bucket _ _ hf]; simp [hf, hsub]
+  · rw [absIt_plain _ _ hf]; simp [hf, SVal.isBucket]
+
+theorem isBucketAt_abs (sub : Bytes → SVal) (hsub : ∀ n, (sub n).isBucket = true) (l : List Item) (k : Bytes) :
+    isBucketAt l k = (entsLookup (l.map (absIt sub)) k).any SVal.isBucket := by
+  rw [lookup_abs]
+  unfold isBucketAt
+  cases l.find? (fun i => i.key == k) with
+  | none => rfl
+  | some i =>
+    simp only [Option.any_some, Option.map_some]
+    rw [absIt_snd_bucket sub hsub]
+    by_cases hf : i.flags % 2 = 1 <;> simp [hf]
+
+theorem specPut_map (sub : Bytes → SVal) (l : List Item) (k v : Bytes) (hb : isBucketAt l k = false) :
+    (specPut l k v).map (absIt sub) = entsInsert k (.val v) (l.map (absIt sub)) := by
+  unfold specPut
+  rw [hb]
+  simp only [Bool.false_eq_true, if_false]
+  rw [BridgeL.insSorted_map _ (absIt_fst sub)]
+  rfl
+
+theorem specPut_refused (l : List Item) (k v : Bytes) (hb : isBucketAt l k = true) : specPut l k v = l := by
+  unfold specPut; rw [hb]; rfl
+
+theorem specDel_map (sub : Bytes → SVal) (l : List Item) (k : Bytes) (hb : isBucketAt l k = false) :
+    (specDel l k).map (absIt sub) = entsErase k (l.map (absIt sub)) := by
+  unfold specDel
+  rw [hb]
+  simp only [Bool.false_eq_true, if_false]
+  exact BridgeL.filter_map _ (absIt_fst sub) k l
+
+theorem specDel_refused (l : List Item) (k : Bytes) (hb : isBucketAt l k = true) : specDel l k = l := by
+  unfold specDel; rw [hb]; rfl
+
+theorem specDel_missing (l : List Item) (k : Bytes) (h : l.find? (fun i => i.key == k) = none) :
+    specDel l k = l := by
+  unfold specDel
+  split
+  · rfl
+  · exact OpsL.filter_of_find_none k l h
+
+/-- `apiPut` on a bucket whose entries are the abstraction of the item list `l` -/
+theorem apiPut_abs (sub : Bytes → SVal) (hsub : ∀ n, (sub n).isBucket = true) (root : SVal)
+    (p : List Bytes) (s : Nat) (l : List Item) (k v : Bytes)
+    (hp : bucketAt (topName :: p) root = some (s, l.map (absIt sub)))
+    (hk : k ≠ []) (hkl : k.length ≤ maxKeySize) (hvl : v.length ≤ maxValueSize) :
+    apiPut root (topName :: p) k v =
+      if isBucketAt l k then .error .incompatibleValue
+      else .ok (setBucketAt (topName :: p) (s, (specPut l k v).map (absIt sub)) root) := by
+  have hke : k.isEmpty = false := by
+    cases k with
+    | nil => exact absurd rfl hk
+    | cons _ _ => rfl
+  have hkl' : ¬ k.length > maxKeySize := Nat.not_lt.mpr hkl
+  have hvl' : ¬ v.length > maxValueSize := Nat.not_lt.mpr hvl
+  have hib := isBucketAt_abs sub hsub l k
+  unfold apiPut
+  rw [hp]
+  simp only [apiPath_ne, hke, Bool.false_eq_true, if_false, if_neg hkl', if_neg hvl']
+  cases hl : entsLookup (l.map (absIt sub)) k with
+  | none =>
+    rw [hl] at hib
+    have hb : isBucketAt l k = false := hib
+    rw [hb, specPut_map sub l k v hb]; rfl
+  | some x =>
+    rw [hl] at hib
+    cases x with
+    | val w =>
+      have hb : isBucketAt l k = false := hib
+      rw [hb, specPut_map sub l k v hb]; rfl
+    | bkt q e =>
+      have hb : isBucketAt l k = true := hib
+      rw [hb]; rfl
+
+/-- `apiDelete` likewise -/
+theorem apiDelete_abs (sub : Bytes → SVal) (hsub : ∀ n, (sub n).isBucket = true) (root : SVal)
+    (p : List Bytes) (s : Nat) (l : List Item) (k : Bytes)
+    (hp : bucketAt (topName :: p) root = some (s, l.map (absIt sub))) :
+    apiDelete root (topName :: p) k =
+      if isBucketAt l k then .error .incompatibleValue
+      else if (l.find? (fun i => i.key == k)).isNone then .ok root
+      else .ok (setBucketAt (topName :: p) (s, (specDel l k).map (absIt sub)) root) := by
+  have hib := isBucketAt_abs sub hsub l k
+  have hlk := lookup_abs sub l k
+  unfold apiDelete
+  rw [hp]
+  simp only [apiPath_ne, Bool.false_eq_true, if_false]
+  cases hfi : l.find? (fun i => i.key == k) with
+  | none =>
+    rw [hfi] at hlk
+    rw [hlk] at hib ⊢
+    have hb : isBucketAt l k = false := hib
+    rw [hb]; rfl
+  | some i =>
+    rw [hfi] at hlk
+    rw [hlk] at hib ⊢
+    simp only [Option.map_some] at hib ⊢
+    cases hx : (absIt sub i).2 with
+    | val w =>
+      rw [hx] at hib
+      have hb : isBucketAt l k = false := hib
+      rw [hb, specDel_map sub l k hb]; rfl
+    | bkt q e =>
+      rw [hx] at hib
+      have hb : isBucketAt l k = true := hib
+      rw [hb]; rfl
+
+/-- `apiCreateBucket` likewise -/
+theorem apiCreate_abs (sub : Bytes → SVal) (root : SVal)
+    (p : List Bytes) (s : Nat) (l : List Item) (name : Bytes)
+    (hp : bucketAt (topName :: p) root = some (s, l.map (absIt sub))) :
+    (name ≠ [] → l.find? (fun i => i.key == name) = none →
+      apiCreateBucket root (topName :: p) name false =
+        .ok (setBucketAt (topName :: p) (s, entsInsert name (.bkt 0 []) (l.map (absIt sub))) root)) ∧
+    (name = [] ∨ (l.find? (fun i => i.key == name)).isSome = true →
+      ∃ e, apiCreateBucket root (topName :: p) name false = .error e) := by
+  have hlk := lookup_abs sub l name
+  constructor
+  · intro hn hf
+    have hke : name.isEmpty = false := by
+      cases name with
+      | nil => exact absurd rfl hn
+      | cons _ _ => rfl
+    rw [hf] at hlk
+    unfold apiCreateBucket
+    rw [hp]
+    simp only [hke, Bool.false_eq_true, if_false]
+    rw [hlk]; rfl
+  · intro h
+    unfold apiCreateBucket
+    rw [hp]
+    simp only
+    by_cases hn : name = []
+    · subst hn; exact ⟨_, rfl⟩
+    · have hke : name.isEmpty = false := by
+        cases name with
+        | nil => exact absurd rfl hn
+        | cons _ _ => rfl
+      rcases h with h | h
+      · exact absurd h hn
+      · obtain ⟨i, hi⟩ := Option.isSome_iff_exists.mp h
+        rw [hi] at hlk
+        simp only [hke, Bool.false_eq_true, if_false]
+        rw [hlk]
+        simp only [Option.map_some]
+        cases (absIt sub i).2 with
+        | val w => exact ⟨_, rfl⟩
+        | bkt q e => exact ⟨_, rfl⟩
+
+/-- `apiDeleteBucket` likewise -/
+theorem apiDeleteBucket_abs (sub : Bytes → SVal) (hsub : ∀ n, (sub n).isBucket = true) (root : SVal)
+    (p : List Bytes) (s : Nat) (l : List Item) (name : Bytes)
+    (hp : bucketAt (topName :: p) root = some (s, l.map (absIt sub))) :
+    (∀ i, l.find? (fun i => i.key == name) = some i → i.flags % 2 = 1 →
+      apiDeleteBucket root (topName :: p) name =
+        .ok (setBucketAt (topName :: p) (s, entsErase name (l.map (absIt sub))) root)) ∧
+    ((∀ i, l.find? (fun i => i.key == name) = some i → ¬ i.flags % 2 = 1) →
+      ∃ e, apiDeleteBucket root (topName :: p) name = .error e) := by
+  have hlk := lookup_abs sub l name
+  constructor
+  · intro i hi hf
+    rw [hi] at hlk
+    unfold apiDeleteBucket
+    rw [hp]
+    simp only
+    rw [hlk]
+    simp only [Option.map_some]
+    have := absIt_snd_bucket sub hsub i
+    cases hx : (absIt sub i).2 with
+    | val w => rw [hx] at this; simp [hf, SVal.isBucket] at this
+    | bkt q e => rfl
+  · intro h
+    unfold apiDeleteBucket
+    rw [hp]
+    simp only
+    rw [hlk]
+    cases hfi : l.find? (fun i => i.key == name) with
+    | none => exact ⟨_, rfl⟩
+    | some i =>
+      simp only [Option.map_some]
+      rw [absIt_plain _ _ (h i hfi)]
+      exact ⟨_, rfl⟩
+
+/-- the bucket named `name` below a bucket whose entries abstract `l` -/
+theorem bucketAt_child (sub : Bytes → SVal) (hsub : ∀ n, (sub n).isBucket = true) (root : SVal)
+    (p : List Bytes) (s : Nat) {l : List Item} (hs : OpsL.SortedI l) (name : Bytes)
+    (hp : bucketAt p root = some (s, l.map (absIt sub))) :
+    (name ∈ l.filterMap bktName → (bucketAt (p ++ [name]) root).isSome = true) ∧
+    (name ∉ l.filterMap bktName → (bucketAt (p ++ [name]) root).isNone = true) := by
+  rw [bucketAt_snoc name hp]
+  constructor
+  · intro hn
+    rw [lookup_abs_bucket sub hs hn, Option.bind_some]
+    have := hsub name
+    cases hx : sub name with
+    | val w => rw [hx] at this; cases this
+    | bkt q e => simp
+  · intro hn
+    rw [lookup_abs]
+    cases hfi : l.find? (fun i => i.key == name) with
+    | none => rfl
+    | some i =>
+      have hf : ¬ i.flags % 2 = 1 := fun hf => hn ((names_find hs).mpr ⟨i, hfi, hf⟩)
+      simp only [Option.map_some, Option.bind_some]
+      rw [absIt_plain _ _ hf]
+      simp
 
 end Bolt.Bkt.BktOpsL
